@@ -403,3 +403,28 @@ Fixpoint py_all {A} (p : A -> res bool) (l : list A) : res bool :=
   | [] => Ok true
   | x :: r => match p x with Ok true => py_all p r | Ok false => Ok false | Err e => Err e end
   end.
+
+(* sorted(l, key=f): the keys are computed first, left to right (an exception of f propagates); the result is
+   the stable order by < on the keys (unique when < is a strict weak order, as it is on ints, strs and tuples of them) *)
+Fixpoint py_mapM {A B} (f : A -> res B) (l : list A) : res (list B) :=
+  match l with
+  | [] => Ok []
+  | x :: r => match f x with
+              | Ok y => match py_mapM f r with Ok ys => Ok (y :: ys) | Err e => Err e end
+              | Err e => Err e
+              end
+  end.
+Fixpoint py_insert_keyed {A K} (ltb : K -> K -> bool) (x : K * A) (l : list (K * A)) : list (K * A) :=
+  match l with
+  | [] => [x]
+  | y :: r => if ltb (fst y) (fst x) then y :: py_insert_keyed ltb x r else x :: l
+  end.
+Definition py_sort_keyed {A K} (ltb : K -> K -> bool) (l : list (K * A)) : list (K * A) :=
+  fold_right (py_insert_keyed ltb) [] l.
+Definition py_sorted_by {A K} (key : A -> res K) (ltb : K -> K -> bool) (l : list A) : res (list A) :=
+  match py_mapM (fun x => match key x with Ok kx => Ok (kx, x) | Err e => Err e end) l with
+  | Ok kl => Ok (map snd (py_sort_keyed ltb kl))
+  | Err e => Err e
+  end.
+Definition py_sorted {A} (ltb : A -> A -> bool) (l : list A) : list A :=
+  map snd (py_sort_keyed ltb (map (fun x => (x, x)) l)).
